@@ -121,6 +121,13 @@ def impl_pack(pkt):
         return ('exc', e)
 
 
+def budget_for(dc, tier, quick=800, thorough=4000):
+    """input budget of a declaration: the three-component declarations of the thorough tier get a smaller one"""
+    if tier == 'quick':
+        return quick
+    return thorough if len(dc.spec.get('names', ())) <= 2 else max(quick, thorough // 3)
+
+
 def inputs_for(dc, budget, ext=None, start=0):
     """yields (raw, reference result): all strings up to the length the budget allows over the
     declaration's alphabet (shortest first); then - when ext is True, or when ext is None and the
